@@ -8,3 +8,10 @@ def implies(a, b):
 
 def iff(a, b):
     return bool(a) == bool(b)
+
+
+def fullmatch(pattern, s, exact=True):
+    """does the whole string match the (constant) regular expression; symbolic model: InRe
+    (exact=False: over-approximate python's \\d, for facts about every word of the language)"""
+    import re
+    return isinstance(s, str) and re.fullmatch(pattern, s, re.DOTALL) is not None
